@@ -1254,3 +1254,43 @@ def tree_shape_key(node, depth=0):
     if isinstance(node, (list, tuple)):
         return tuple(tree_shape_key(v) for v in node if not isinstance(v, (int, float, str, bool)) or v in ("var", "const", "call", "mapvar", "math", "expr", "bare"))
     return None
+
+
+# ---------------------------------------------------------------- several rules per call (C15)
+def make_multi_case(cid, rules, inject, rng=None, fancy=False, twice=False):
+    """rules: list of (name, desc, sal, body) with pairwise distinct saliences."""
+    pr = Printer(rng, fancy)
+    for (n, d, s, b) in rules:
+        pr.p_rule(n, d, s, b)
+        fix_neg_atom_pos(b)
+    order = sorted(rules, key=lambda r: -r[2])
+    return {"id": cid, "text": pr.text(), "rule": order[0][0], "inject": inject, "tree": False, "multi": order, "twice": twice}
+
+
+def coq_mcase(c, o, init_dumps=None, cid=None):
+    em = CoqEmit(True)
+    rules = coq_list(["(mkMeta %s %s %s, %s)" % (coq_str(n), coq_str(d or ""), coq_z(s or 0), em.block(b)) for (n, d, s, b) in c["multi"]])
+    cls = {"ok": "OOk", "error": "OError", "panic": "OPanic"}[o["class"]]
+    rets = coq_list(["(%s, %s)" % (coq_str(k), "None" if v["t"] == "nil" else "(Some %s)" % coq_value(v)) for k, v in sorted(o["results"].items())])
+    cites = coq_list(["(%d%%nat, %d%%nat)" % (a, b) for a, b in o["cites"]])
+    calls = coq_list(["(%s, %s)" % (coq_str(cl["fn"]), coq_list([coq_value(a) for a in cl["args"]])) for cl in o["calls"] if cl["fn"] != "Unheld"])
+    dumps = {d["name"]: d for d in o["store"]}
+    store = coq_list(["(%s, %s)" % (coq_str(d["name"]), coq_hobj(d, dumps.get(d["name"]))) for d in c["inject"] if d["kind"] not in ("func", "val", "structv", "nilptr")])
+    inj = coq_list(["(%s, %s)" % (coq_str(d["name"]), coq_hobj(d, (init_dumps or {}).get(d["name"]))) for d in c["inject"]])
+    return "mkMC2 %s %s %s %s %s %s %s %s" % (coq_nat(c["id"] if cid is None else cid), rules, inj, cls, rets, cites, calls, store)
+
+
+def evaluate_multi(tag, items):
+    """items: list of Coq mcase terms."""
+    shard = max(20, min(150, (len(items) + NCPU - 1) // NCPU))
+    parts = [items[i:i + shard] for i in range(0, len(items), shard)] or [[]]
+
+    def one(ip):
+        i, part = ip
+        body = "Definition cases : list mcase := %s.\nDefinition M := mmismatches cases.\n" % coq_list(["(" + x + ")" for x in part], per_line=True)
+        res = coq_eval_cases("cases_%s_%d" % (tag, i), HEADER, body, ["M"])
+        return [tuple(t) for t in parse_nat_tuples(res["M"])]
+    out = []
+    for r in parallel_map(one, list(enumerate(parts))):
+        out += r
+    return out
